@@ -215,3 +215,26 @@ func C06_Tokens() {
 	}
 	c06Run([]byte(src+suf), false)
 }
+
+// C06_Diagnostics: ParseFile of faulty multi-line input arriving in small
+// reads, on every schedule within the preemption bound (lock operations of
+// the line table are preemption points): the parser formats positions while
+// the lexer records line feeds; the call must come back with an error on
+// each schedule (a deadlock ends the path as a violation).
+func C06_Diagnostics() {
+	src := []string{"eval )\neval )\n", "a = \n= 2\n", "def {\n\"\n"}[verif.Choice("src", 3)]
+	chunks := []int{4, 7}
+	if verif.Tier() == 1 {
+		chunks = []int{4, 7, 2}
+	}
+	chunk := chunks[verif.Choice("chunk", len(chunks))]
+	var script []symio.Step
+	for i := 0; i*chunk < len(src); i++ {
+		script = append(script, symio.Step{N: chunk})
+	}
+	f := &symio.File{Data: []byte(src), Script: script, FileName: "f"}
+	out, log := &symio.Writer{}, &symio.Writer{}
+	_, err := bcl.ParseFile(f, bcl.OptOutput(out), bcl.OptLogger(log))
+	verif.Assert(err != nil, "syntax errors reported")
+	verif.Reach("returned")
+}
